@@ -674,6 +674,47 @@ struct StreamReader {
   std::vector<long> *seen_;
 };
 
+// smain: the Stream is attached in the calling thread (`chain >> stream >> kRecycle`, then the caller iterates),
+// the public pattern of stream.hh / sort.hh.  Stream::Init runs before the Recycler exists.
+std::string RunStreamMain(long b, long recs, const std::vector<std::vector<long> > &blocks,
+                          const std::vector<long> &sched) {
+  std::vector<long> seen;
+  {
+    std::unique_lock<std::mutex> l(G.m);
+    ResetSched(b);
+    G.coarse = true;
+    G.th.resize(1);
+    G.active = true;
+  }
+  std::thread main_thread([&] {
+    ManagedBegin(0);
+    {
+      util::stream::ChainConfig config(sizeof(int64_t), b, sizeof(int64_t) * recs * b);
+      util::stream::Chain chain(config);
+      chain >> BlockSource(&blocks) >> InPlaceFilter();
+      {
+        // the Stream must be destroyed before Wait(): a Link whose first block is poison forwards it in ~Link
+        util::stream::Stream stream;
+        chain >> stream >> util::stream::kRecycle;
+        for (; stream; ++stream) {
+          seen.push_back((long)*static_cast<const int64_t *>(stream.Get()));
+          if (seen.size() > 100000) abort();
+        }
+      }
+      chain.Wait();
+    }
+    ManagedEnd();
+  });
+  std::unique_lock<std::mutex> l(G.m);
+  std::string trace = Drive(l, sched, 1);
+  G.active = false;
+  l.unlock();
+  main_thread.join();
+  std::ostringstream out;
+  out << trace << "0:" << Join(seen);
+  return out.str();
+}
+
 std::string RunStreamChain(long b, long recs, const std::vector<std::vector<long> > &blocks,
                            const std::vector<long> &sched) {
   std::vector<long> seen;
@@ -747,7 +788,7 @@ int main() {
       long cap, workers; std::string reqs, sched;
       in >> cap >> workers >> reqs >> sched;
       std::cout << RunPool(cap, workers, Nats(reqs), Nats(sched)) << std::endl;
-    } else if (op == "schain") {
+    } else if (op == "schain" || op == "smain") {
       long b, recs; std::string blocks, sched;
       in >> b >> recs >> blocks >> sched;
       std::vector<std::vector<long> > bl;
@@ -757,7 +798,8 @@ int main() {
         for (size_t k = 0; k < v.size(); ++k) if (v[k] != 0) w.push_back(v[k]);
         bl.push_back(w);
       }
-      std::cout << RunStreamChain(b, recs, bl, Nats(sched)) << std::endl;
+      std::cout << (op == "smain" ? RunStreamMain(b, recs, bl, Nats(sched)) : RunStreamChain(b, recs, bl, Nats(sched)))
+                << std::endl;
     } else if (op == "chain") {
       long b, m; std::string data, sched;
       in >> b >> m >> data >> sched;
